@@ -136,7 +136,7 @@ def prove(pid, spec, thorough):
     if rc != 0:
         res["failures"].append("axiom audit failed: " + out[-800:])
         return res
-    for m in re.finditer(r"'([^']+)' (does not depend on any axioms|depends on axioms: \[([^\]]*)\])", out):
+    for m in re.finditer(r"'(\S+)' (does not depend on any axioms|depends on axioms: \[([^\]]*)\])", out):
         ax = [a.strip() for a in (m.group(3) or "").replace("\n", " ").split(",") if a.strip()]
         res["axioms"][m.group(1)] = ax
     for n in names:
